@@ -638,6 +638,13 @@ pub const PREFIXES: &[&[u8]] = &[
     b"%%",
     b"$",
     b"${PREFIX}/",
+    // what a PLIST in the pkgsrc tree (not yet an installed +CONTENTS) carries
+    b"${PLIST.nls}",
+    b"${PLIST.x11}",
+    b"${PKGLOCALEDIR}/",
+    b"${PLIST.",
+    b"${PLIST.a}${PLIST.b}",
+    b"@comment",
     b"${PLIST.x}",
     b"~",
     b"~/",
